@@ -108,6 +108,23 @@ pub fn run(case: &Value) -> Value {
             let back: ActionRule = serde_json::from_str(&t).unwrap();
             json!({"out": if back == v { "same" } else { "changed" }})
         }
+        // value-level round trip of a principal map built directly (not by decoding): entries [[key, "one" | "more", [values]]]
+        "principal_roundtrip" => {
+            let mut m = indexmap::IndexMap::new();
+            for e in case["entries"].as_array().unwrap() {
+                let k = String::from_utf8(hex(&e[0])).unwrap();
+                let vs: Vec<String> = e[2].as_array().unwrap().iter().map(|x| String::from_utf8(hex(x)).unwrap()).collect();
+                let v = if e[1].as_str() == Some("one") { OneOrMore::One(vs[0].clone()) } else { OneOrMore::More(vs) };
+                m.insert(k, v);
+            }
+            let p = if case["not"].as_bool().unwrap_or(false) { PrincipalRule::NotPrincipal(Principal::Map(m)) } else { PrincipalRule::Principal(Principal::Map(m)) };
+            let t = serde_json::to_string(&p).unwrap();
+            let out = match serde_json::from_str::<PrincipalRule>(&t) {
+                Ok(back) => if back == p { "same".to_string() } else { format!("changed:{t}") },
+                Err(_) => format!("undecodable:{t}"),
+            };
+            json!({"out": out})
+        }
         "policy_de" => {
             let text = String::from_utf8(hex(&case["text"])).unwrap();
             let out = match serde_json::from_str::<Policy>(&text) {
